@@ -301,6 +301,28 @@ def check_encoder_table(prog, rep):
             src = call.args[0]
             if isinstance(src, PtrV) and isinstance(src.place, Place) and src.place == payload_place:
                 s.ghost[("inj", "payload-copied")] = True
+        elif p in ("alloc::vec::Vec::<T, A>::extend_from_slice",
+                   "<alloc::vec::Vec<T, A> as core::iter::traits::collect::Extend<&'a T>>::extend") and len(call.args) == 2:
+            # the safe spelling of the same copies
+            import summaries2
+            sl = summaries2.as_slice(I_, s, call.args[1], call.arg_tys[1])
+            if sl is not None and isinstance(sl.base, tuple) and sl.base[0] == "vec" and sl.base[1] == payload_place \
+                    and s.entails_eq(sl.off, Aff.const(0)):
+                pv = I_.read(s, payload_place)
+                if isinstance(pv, VecV) and s.entails_eq(sl.len, pv.len):
+                    s.ghost[("inj", "payload-copied")] = True
+            elif "pushes" in s.ghost and sl is not None and isinstance(sl.base, tuple) and sl.base[0] == "arr" and isinstance(sl.base[1], Place):
+                arr = I_.read(s, sl.base[1])
+                bo = arr.get("bytes_of") if isinstance(arr, OpaqueV) else None
+                if bo and bo[0] == "to_be_bytes" and isinstance(bo[1], IntV) and bo[1].ty is not None and sl.len.is_const():
+                    w = bo[1].ty[0]
+                    n = sl.len.c
+                    bits = I_.bits_of(s, bo[1], w)
+                    for k in range(n):
+                        bb_ = tuple(bits[8 * (n - 1 - k): 8 * (n - k)])
+                        s.ghost["pushes"] = tuple(s.ghost["pushes"]) + (I_.from_bits(s, bb_, (8, False), "be"),)
+                else:
+                    s.ghost["pushes"] = tuple(s.ghost["pushes"]) + (None,) * (sl.len.c if sl.len.is_const() else 1)
         elif p == "alloc::vec::Vec::<T, A>::reserve" and s.ghost.get("pushes"):
             pushes = s.ghost["pushes"]
             n = call.args[1]
